@@ -187,10 +187,10 @@ def check_corpus(corpus, fails, counts):
                         cnt[key] = cnt.get(key, 0) + 1
                 if ks(r) != exp:
                     fail("C14-collapse-%d" % lim, "collapse=txt limit=%d -> %r expected %r" % (lim, ks(r), exp))
-            # ---- collapse under a limit (TopCollector.remove); optimize=False: with block-quality skipping the
-            # collapsed top-N is a recorded known finding
-            for lim, k in ((1, 3), (1, 6), (2, 6)):
-                r = s.search(q, limit=k, collapse="txt", collapse_limit=lim, optimize=False)
+            # ---- collapse under a limit (TopCollector.remove), with and without block-quality pruning: the admission
+            # threshold must be reset while the heap has room again (fixed in /repo, see known_findings.json)
+            for lim, k, opt in ((1, 3, False), (1, 6, False), (2, 6, False), (1, 3, True), (1, 2, True), (2, 3, True), (2, 6, True)):
+                r = s.search(q, limit=k, collapse="txt", collapse_limit=lim, optimize=opt)
                 exp, cnt = [], {}
                 for i in ranked:
                     key = docs[i]["txt"]
@@ -198,7 +198,7 @@ def check_corpus(corpus, fails, counts):
                         exp.append(i)
                         cnt[key] = cnt.get(key, 0) + 1
                 if ks(r) != exp[:k]:
-                    fail("C14-collapse-limit", "collapse=txt collapse_limit=%d limit=%d optimize=False -> %r expected %r" % (lim, k, ks(r), exp[:k]))
+                    fail("C14-collapse-limit", "collapse=txt collapse_limit=%d limit=%d optimize=%s -> %r expected %r" % (lim, k, opt, ks(r), exp[:k]))
             # ---- filter / mask
             fq = query.Term("tags", "red")
             red = set(i for i in live if "red" in docs[i]["tags"])
